@@ -313,6 +313,108 @@ fn run_sched(sc: &Value) -> Value {
 }
 
 // ------------------------------------------------------------------------------------------
+// burst: an operation arrives while the provision actor's mailbox is full of status queries
+// ------------------------------------------------------------------------------------------
+// {"kind":"burst","setup":{..},"ops":[{"op":..,"burst":N}, ..]}: before each op, N query futures
+// (get_state / get_provision_finished / get_provision_state_internal, round robin) are polled ONCE
+// each without letting the actor run, so up to 100 messages sit in its mailbox and the rest wait for
+// a slot; then the op's future is polled once; then everything is polled round robin (actor
+// draining in between) until all futures are done.  Snapshot after each op.
+fn run_burst(sc: &Value) -> Value {
+    let rt = tokio::runtime::Builder::new_current_thread()
+        .enable_all()
+        .build()
+        .unwrap();
+    let out = rt.block_on(async {
+        let st = SharedState::start_all();
+        apply_setup(&st, &sc["setup"]).await;
+        drain().await;
+        let waker = Waker::from(Arc::new(NoopWake));
+        let (f0, t0) = snapshot(&st).await;
+        let mut steps = Vec::new();
+        for op in sc["ops"].as_array().unwrap() {
+            let n = op.get("burst").and_then(|v| v.as_u64()).unwrap_or(0) as usize;
+            let prov = st.get_provision_shared_state();
+            let ags = st.get_agent_status_shared_state();
+            let kk = st.get_key_keeper_shared_state();
+            let mut pending: Vec<Fut> = Vec::new();
+            for i in 0..n {
+                let (prov, ags, kk) = (prov.clone(), ags.clone(), kk.clone());
+                let f: Fut = match i % 3 {
+                    0 => Box::pin(async move {
+                        let _ = prov.get_state().await;
+                        TaskOut::Done
+                    }),
+                    1 => Box::pin(async move {
+                        let _ = prov.get_provision_finished().await;
+                        TaskOut::Done
+                    }),
+                    _ => Box::pin(async move {
+                        TaskOut::Query(provision::get_provision_state_internal(prov, ags, kk).await)
+                    }),
+                };
+                pending.push(f);
+            }
+            let mut cx = Context::from_waker(&waker);
+            let mut still: Vec<Fut> = Vec::new();
+            for mut f in pending {
+                if f.as_mut().poll(&mut cx).is_pending() {
+                    still.push(f);
+                }
+            }
+            // the operation itself, sent into the (possibly full) mailbox
+            let mut opf = Some(make_future(&st, op));
+            let mut op_polls = 1u32;
+            let mut op_done = false;
+            if let Poll::Ready(_) = opf.as_mut().unwrap().as_mut().poll(&mut cx) {
+                op_done = true;
+                opf = None;
+            }
+            let ready_at_first_poll = op_done;
+            // now let everything run to completion
+            let mut rounds = 0u32;
+            while (!still.is_empty() || opf.is_some()) && rounds < 5000 {
+                rounds += 1;
+                drain().await;
+                let mut cx = Context::from_waker(&waker);
+                let mut next: Vec<Fut> = Vec::new();
+                for mut f in still {
+                    if f.as_mut().poll(&mut cx).is_pending() {
+                        next.push(f);
+                    }
+                }
+                still = next;
+                if let Some(f) = opf.as_mut() {
+                    op_polls += 1;
+                    if f.as_mut().poll(&mut cx).is_ready() {
+                        op_done = true;
+                        opf = None;
+                    }
+                }
+            }
+            drain().await;
+            let (f, t) = snapshot(&st).await;
+            steps.push(json!({"flags": f, "tick": t.to_string(), "op_done": op_done, "op_polls": op_polls,
+                              "ready_at_first_poll": ready_at_first_poll,
+                              "burst": n, "burst_left": still.len(), "rounds": rounds}));
+        }
+        // a final query, run alone
+        let s = provision::get_provision_state_internal(
+            st.get_provision_shared_state(),
+            st.get_agent_status_shared_state(),
+            st.get_key_keeper_shared_state(),
+        )
+        .await;
+        json!({"init": {"flags": f0, "tick": t0.to_string()}, "steps": steps,
+               "final": {"tick": s.finished_time_tick.to_string(), "err": s.error_message,
+                         "latched": s.is_secure_channel_latched()},
+               "fs": fs_snapshot()})
+    });
+    drop(rt);
+    out
+}
+
+// ------------------------------------------------------------------------------------------
 // the real listener
 // ------------------------------------------------------------------------------------------
 fn free_port() -> u16 {
@@ -582,6 +684,7 @@ pub fn main() {
             "sched" => run_sched(&sc),
             "http" => run_http(&sc),
             "threads" => run_threads(&sc),
+            "burst" => run_burst(&sc),
             "write" => run_write(&sc),
             _ => json!({"error": "unknown kind"}),
         }));
